@@ -1,4 +1,5 @@
 import Evl.Lemmas.RegistryClose
+import Evl.Props.NodeClose
 /-!
 # C06 — node in-use accounting matches registered pipelines; nodes close exactly once
 
